@@ -1,16 +1,16 @@
-\* quick facet: powers above 2^63 (HM = 1000000 stands for 2^63, U64Lim for 2^64): locks at H, H+1, 2H
+\* quick facet: powers above 2^63 (HM = 100000000 stands for 2^63, U64Lim for 2^64): locks at H, H+1, 2H
 CONSTANTS
   Acct = {a1}
   Val = {v1}
   Vault = {k1, k2}
   Denom = {d1, d2}
   AmtSet = {1}
-  CoinAmts = {1, 1000000, 1000001}
+  CoinAmts = {1, 100000000, 100000001}
   CoinSet <- MCCoins
-  LockAmts = {1, 999999, 1000000, 1000001, 1999999, 2000000, 2000001}
+  LockAmts = {1, 99999999, 100000000, 100000001, 199999999, 200000000, 200000001}
   LockSet <- MCLocks
   MaxHi = 1
-  U64Lim = 2000000
+  U64Lim = 200000000
   MaxEntry = 1
   InitAllowed = {d1, d2}
 INIT InitFixed
